@@ -18,7 +18,8 @@
 (***************************************************************************)
 EXTENDS Integers, Sequences, FiniteSets, TLC, Json, CSV, IOUtils
 
-CONSTANTS Oids, Paths, Branches, Ages, MaxCommits, MaxSteps, Emit
+CONSTANTS Oids, Paths, Branches, Ages, MaxCommits, MaxSteps, Emit,
+          Skew      \* TRUE: a commit may carry an older date than its parent (clock skew, rebased or imported commits)
 
 Blobs    == {"none", "raw"} \cup Oids
 NoCommit == 0
@@ -52,7 +53,7 @@ Commit(b, p, blob, age) ==
          c == [par |-> IF parent = NoCommit THEN {} ELSE {parent},
                tree |-> [TreeOf(parent) EXCEPT ![p] = blob], age |-> age]
      IN /\ TreeOf(parent)[p] # blob
-        /\ (parent # NoCommit => age <= commits[parent].age)          \* dates never go backwards
+        /\ (parent # NoCommit /\ ~Skew => age <= commits[parent].age)   \* unless Skew, dates never go backwards
         /\ commits' = Append(commits, c)
         /\ br' = [br EXCEPT ![b] = Len(commits) + 1]
   /\ head' = b
@@ -69,7 +70,7 @@ CommitTree(b, t, age) ==
   /\ LET parent == IF br[b] = NoCommit /\ b # "main" THEN br["main"] ELSE br[b]
          c == [par |-> IF parent = NoCommit THEN {} ELSE {parent}, tree |-> t, age |-> age]
      IN /\ Cardinality({p \in Paths : TreeOf(parent)[p] # t[p]}) >= 2
-        /\ (parent # NoCommit => age <= commits[parent].age)
+        /\ (parent # NoCommit /\ ~Skew => age <= commits[parent].age)
         /\ commits' = Append(commits, c)
         /\ br' = [br EXCEPT ![b] = Len(commits) + 1]
   /\ head' = b
